@@ -179,7 +179,8 @@ WS_HEADERS = [(b"host", b"example.com"), (b"connection", b"Upgrade"), (b"connect
               (b"sec-websocket-key", b"dGhlIHNhbXBsZSBub25jZQ=="), (b"sec-websocket-version", b"13"), (b"sec-websocket-version", b"8"),
               (b"sec-websocket-protocol", b"chat, superchat"), (b"sec-websocket-protocol", b"v1"),
               (b"sec-websocket-extensions", b"permessage-deflate"), (b"sec-websocket-extensions", b"x-unknown; a=1"),
-              (b"connection", b"upgrade, \xff"), (b"origin", b"http://o.test")]
+              (b"connection", b"upgrade, \xff"), (b"sec-websocket-protocol", b"ch\xe9t"), (b"sec-websocket-extensions", b"\xff; x"),
+              (b"origin", b"http://o.test")]
 VALID_WS = [(b"host", b"example.com"), (b"connection", b"Upgrade"), (b"upgrade", b"websocket"),
             (b"sec-websocket-key", b"dGhlIHNhbXBsZSBub25jZQ=="), (b"sec-websocket-version", b"13")]
 
@@ -338,8 +339,7 @@ def ws_case(rng, length=None):
     inputs = [req]
     frag_state = [None]
     n = length if length is not None else rng.randint(1, 7)
-    if any(c >= 128 for c in req[3].partition(b"?")[0]) or any(
-            c >= 128 for nm, v in req[1] if nm.lower() in (b"connection", b"sec-websocket-extensions", b"sec-websocket-protocol") for c in v):
+    if any(c >= 128 for c in req[3].partition(b"?")[0]):
         n = 0
     if n and rng.random() < 0.5:
         inputs.append(("app", ("ws.accept", None, [])))  # a good share of sessions get past the handshake
